@@ -45,6 +45,9 @@ def step (s : Unit) (j : Json) : Except String (Unit × Json × List Fired) := d
       let i ← jnat out "res"
       if !(i < ws.length ∧ ws.getD i 0 > 0) then
         fired := [{ name := "chosen_index_invalid", detail := jn i }]
+    else if r.isSome then
+      -- a total weight that fits 64 bits and is not zero: the specification draws, the implementation must not panic
+      fired := [{ name := "sampler_panicked_where_the_specification_draws", detail := mkObj [("totalWeight", jn (ws.foldl (· + ·) 0))] }]
     pure (s, mout, fired)
   | "chooseSome" =>
     let ws ← jnatList j "weights"
@@ -64,6 +67,8 @@ def step (s : Unit) (j : Json) : Except String (Unit × Json × List Fired) := d
           fired := fired ++ [{ name := "sample_is_not_the_seed_determined_one", detail := mkObj [("got", jl (l.map jn)), ("specified", jl (l'.map jn))] }]
       | none =>
         fired := fired ++ [{ name := "sample_drawn_where_the_sampler_must_refuse", detail := mkObj [("got", jl (l.map jn)), ("totalWeight", jn (ws.foldl (· + ·) 0))] }]
+    else if r.isSome then
+      fired := [{ name := "sampler_panicked_where_the_specification_draws", detail := mkObj [("totalWeight", jn (ws.foldl (· + ·) 0)), ("cnt", jn cnt)] }]
     pure (s, optListJson r, fired)
   | "maxWeight" =>
     let ws ← jnatList j "weights"
@@ -84,7 +89,20 @@ def step (s : Unit) (j : Json) : Except String (Unit × Json × List Fired) := d
           fired := fired ++ [{ name := "sample_is_not_the_seed_determined_one", detail := mkObj [("got", jl (l.map jn)), ("specified", jl (l'.map jn))] }]
       | none =>
         fired := fired ++ [{ name := "sample_drawn_where_the_sampler_must_refuse", detail := mkObj [("got", jl (l.map jn)), ("totalWeight", jn (ws.foldl (· + ·) 0))] }]
+    else if r.isSome then
+      fired := [{ name := "sampler_panicked_where_the_specification_draws", detail := mkObj [("totalWeight", jn (ws.foldl (· + ·) 0)), ("cnt", jn cnt)] }]
     pure (s, optListJson r, fired)
+  | "createGroup" =>
+    -- a proposed member list (account numbers; spelling differences removed): a signing group never holds one participant twice,
+    -- or that participant could sit on a committee twice
+    let accts ← jnatList j "accounts"
+    let vb := (jstr out "validateBasic").toOption.getD ""
+    let ierr := (jstr out "err").toOption.getD ""
+    let created := vb == "" && ierr == ""
+    let mut fired : List Fired := []
+    if created && !distinct accts then
+      fired := [{ name := "group_created_with_one_participant_twice", detail := mkObj [("accounts", jl (accts.map jn))] }]
+    pure (s, out, fired)
   | "randomValidators" =>
     -- env: eligible validators [idx, power] in the staking iteration order
     let elig ← (← jarr j "eligible").mapM fun e => do
